@@ -367,3 +367,10 @@ META['C09'] = dict(
     technique='Go race detector + invariant barriers + deadlock/leak monitors over a randomized multi-core stress with tag-guarded schedule perturbation; porcupine linearizability check of register-like API; synctest bubble leak detector',
     level_text='Exploration: 8 (quick) / 48 (thorough) stress runs of ~15-40 s each, every run with its own GOMAXPROCS and yield-point perturbation vector; reports are de-duplicated by the pair of innermost library frames. Says nothing about interleavings the scheduler did not produce.',
     level_note='Trusted base: the race detector, the harness gate (barriers are quiescent), the contract-conforming API goroutines.')
+
+# thresholds for the observation counters of the workload features added after the seeded-change rounds (about 1/10 of
+# what a quick run observes): a feature that silently stops being exercised makes the check inconclusive, not green
+_EXTRA_MIN_OBS = {'C01': {'stale_reply_then_runt': 40, 'replies_inside_write': 30}, 'C02': {'frames_with_link_padding': 2000}, 'C03': {'dns_names_of_253': 100, 'ip4_headers_checksummed': 100000, 'padded_frames': 700}, 'C04': {'named_frames': 250, 'relayed_arp_frames': 120, 'runt_frames': 120}, 'C05': {'named_frames': 250, 'relayed_arp_frames': 120, 'runt_frames': 120}, 'C06': {'named_frames': 250, 'relayed_arp_frames': 120, 'runt_frames': 120}, 'C08': {'stale_reply_then_runt': 40}, 'C11': {'midhistory_restarts': 1000, 'restarts_with_new_dns': 400}, 'C12': {'midhistory_restarts': 1000, 'restarts_with_new_dns': 400}, 'C13': {'relayed_requests_mixed_hunt_state': 8, 'starthunt_with_another_ip': 50}, 'C14': {'hunt_calls_with_another_address': 30}, 'C16': {'truncated_frames_tried': 500}, 'C17': {'dns_names_near_limit': 300, 'mac_level_merges_checked': 9000}, 'C18': {'midhistory_restarts': 40, 'restart_probes_after_ageing': 70}, 'C19': {'replies_inside_write': 200, 'duplicate_replies_inside_write': 50, 'stale_reply_then_runt': 300}, 'C20': {'library_log_lines_judged': 10000, 'library_log_histories': 20}}
+for _p, _m in _EXTRA_MIN_OBS.items():
+    PROPS[_p]['min_obs'] = dict(PROPS[_p]['min_obs'])
+    PROPS[_p]['min_obs']['quick'] = dict(PROPS[_p]['min_obs'].get('quick', {}), **_m)
